@@ -45,3 +45,31 @@ def walk(r):
 
 def size(r):
     return sum(1 for _ in walk(r))
+
+
+ID_POS = {"AtLeast": 3, "AtMost": 3, "All": 2, "Any": 2, "Xor": 2, "ExactlyOne": 2, "XNor": 2, "Imply": 3,
+          "ccAny": 3, "ccXor": 3, "Stingy": 2}
+
+
+def idspec(r):
+    p = ID_POS.get(r[0])
+    if p is None:
+        return None
+    v = r[p]
+    if isinstance(v, list):
+        return v[1]
+    return v
+
+
+def named_ids(r, resolve_ref=None, out=None):
+    """compound ids the recipe names explicitly (everything else the library generates itself)"""
+    out = set() if out is None else out
+    for n in walk(r):
+        if n[0] == "ref" and resolve_ref is not None:
+            sub = resolve_ref(n[1])
+            if sub is not None:
+                named_ids(sub, resolve_ref, out)
+        i = idspec(n)
+        if i is not None:
+            out.add(i)
+    return out
